@@ -104,9 +104,11 @@ fn main() {
             };
             emit_search(r);
         }
+        "probe-empty" => { println!("{:?}", c05::empty_tree(&rt)); }
         "finding" => {
             let (rep, detail) = match args[1].as_str() {
                 "C08-D4" => c08::finding_d4(&rt),
+                "C05-D8" => c05::finding_d8(&rt),
                 other => (false, format!("unknown finding {other}")),
             };
             println!("{}", J::obj(vec![("reproduces", J::Bool(rep)), ("detail", J::s(&detail))]).render());
